@@ -8,8 +8,13 @@ package pfcpiface
 import (
 	"encoding/json"
 	"fmt"
+	"net"
+	"reflect"
+	"runtime"
 	"sort"
+	"syscall"
 	"testing"
+	"time"
 
 	"github.com/google/gopacket"
 	"github.com/google/gopacket/layers"
@@ -48,15 +53,52 @@ func (p emPacket) String() string {
 // takeEndMarkers drains the plug-in's end-marker sink.
 func (in *vInst) takeEndMarkers() [][]byte {
 	var out [][]byte
-	if in.bs != nil {
+	if in.bs != nil && in.emConn != nil {
+		// at the socket, as BESS sees them: one record = one packet. First let the plug-in's send loop finish: its queue is
+		// empty and the loop is parked in its receive (every Write it did has returned, i.e. the records are in the socket)
+		q := vFieldValue(in.bs, "endMarkerChan")
+		for t0 := time.Now(); ; {
+			if (!q.IsValid() || q.Len() == 0) && vGoroutineParked("endMarkerSendLoop", "chan receive") {
+				break
+			}
+			if time.Since(t0) > 60*time.Second {
+				panic("VERIF-INFRA: the end-marker send loop of the bess plug-in did not come to rest within 60 s")
+			}
+			runtime.Gosched()
+		}
+		rc, err := in.emConn.(*net.UnixConn).SyscallConn()
+		if err != nil {
+			panic("VERIF-INFRA: " + err.Error())
+		}
+		buf := make([]byte, 65536)
 		for {
-			select {
-			case b := <-in.bs.endMarkerChan:
-				out = append(out, append([]byte{}, b...))
-			default:
+			n, rerr := 0, error(nil)
+			rc.Read(func(fd uintptr) bool {
+				n, _, rerr = syscall.Recvfrom(int(fd), buf, syscall.MSG_DONTWAIT)
+				return true // never wait: what is there is there
+			})
+			if rerr != nil || n <= 0 {
 				return out
 			}
+			out = append(out, append([]byte{}, buf[:n]...))
 		}
+	}
+	if in.bs != nil {
+		// no socket (end markers disabled): anything queued is reported as a packet of unknown content
+		if q := vFieldValue(in.bs, "endMarkerChan"); q.IsValid() && q.Kind() == reflect.Chan && !q.IsNil() {
+			for q.Len() > 0 {
+				v, ok := q.TryRecv()
+				if !ok {
+					break
+				}
+				if b, isBytes := v.Interface().([]byte); isBytes {
+					out = append(out, append([]byte{}, b...))
+				} else {
+					out = append(out, []byte{})
+				}
+			}
+		}
+		return out
 	}
 	if in.p4 != nil {
 		return in.p4.takePacketOuts()
@@ -159,8 +201,8 @@ func c14Oracle(st *c14State) (pre func(s *sessSys, r *sessReq), post func(c *ste
 		s.emEarly = 0
 		if s.in.fb != nil {
 			s.in.fb.onCmd = func() {
-				if n := len(s.in.bs.endMarkerChan); n > 0 {
-					s.emEarly += n
+				if q := vFieldValue(s.in.bs, "endMarkerChan"); q.IsValid() && q.Kind() == reflect.Chan {
+					s.emEarly += q.Len()
 				}
 			}
 		}
